@@ -559,7 +559,7 @@ def toDoc (T : PrecTable) (pp : Option Nat) : Expr → Doc
     match renderA T T.highest a with
     | some _ => toDocA T T.highest a
     | none => .junk "??".toList
-  | .opaque t => .atom t
+  | .opaque t _ => .atom t
   | .unknown => .junk "??".toList
   | .unlinked e =>
     -- rendered as if at top level; (a starred / keyword / absent node cannot be spliced in: spelled as is)
@@ -607,7 +607,7 @@ def canon : Expr → Doc
   | .keyword a v => .keyword a (canon v)
   | .starred x => .starred (canon x)
   | .astor a => canonA a
-  | .opaque t => .atom t
+  | .opaque t _ => .atom t
   | .unknown => .junk "??".toList
   | .unlinked e => canon e
 def canonList : List Expr → List Doc
@@ -878,7 +878,7 @@ theorem toDoc_flatten (T : PrecTable) :
   | .constName k, pp => by simp [toDoc, compile, Doc.flatten, flat]
   | .ellipsis, pp => by simp [toDoc, compile, Doc.flatten, flat]
   | .absent, pp => by simp [toDoc, compile, Doc.flatten, flat]
-  | .opaque t, pp => by simp [toDoc, compile, Doc.flatten, flat]
+  | .opaque t w, pp => by simp [toDoc, compile, Doc.flatten, flat]
   | .unknown, pp => by simp [toDoc, compile, Doc.flatten, flat]
   | .unary op x, pp => by
     have ih := toDoc_flatten T x (some (T.unary op))
@@ -1171,7 +1171,7 @@ def okTree (T : PrecTable) (star : Bool) : Expr → Bool
   | .constBytes _ => true
   | .constName _ => true
   | .ellipsis => true
-  | .opaque _ => true
+  | .opaque _ _ => true
   | .constInt _ => true
   | .unary _ x => okTree T false x
   | .binary _ l r => okTree T false l && okTree T false r
@@ -1375,7 +1375,7 @@ theorem derives_core (e : Expr) (pp : Option Nat) (n : Nat) (star : Bool)
   | .constBytes b, _, _, _ => simp [toDoc, canon, parseDoc]
   | .constName k, _, _, _ => simp [toDoc, canon, parseDoc]
   | .ellipsis, _, _, _ => simp [toDoc, canon, parseDoc]
-  | .opaque t, _, _, _ => simp [toDoc, canon, parseDoc]
+  | .opaque t w, _, _, _ => simp [toDoc, canon, parseDoc]
   | .constInt k, _, _, _ => simp [toDoc, canon, parseDoc]
   | .unknown, hok, _, _ => simp [okTree] at hok
   | .absent, hok, _, _ => simp [okTree] at hok
@@ -1585,7 +1585,7 @@ theorem derives_kws (ks : List Expr) (hok : okKws LT ks = true) :
   | .subscript _ _ :: _, hok => simp [okKws] at hok
   | .starred _ :: _, hok => simp [okKws] at hok
   | .astor _ :: _, hok => simp [okKws] at hok
-  | .opaque _ :: _, hok => simp [okKws] at hok
+  | .opaque _ _ :: _, hok => simp [okKws] at hok
   | .unknown :: _, hok => simp [okKws] at hok
   | .absent :: _, hok => simp [okKws] at hok
   | .unlinked _ :: _, hok => simp [okKws] at hok
@@ -2394,6 +2394,7 @@ theorem exec_spec (cfg : Cfg) :
       | valueError => exact hext
       | indexError => exact hext
       | fuel => exact hext
+      | recursion => exact hext
   | .ifLb a b, indent, st, hp => by
     simp only [exec]
     cases hlb : st.lbok with
@@ -2504,7 +2505,11 @@ theorem wrap_marked (T : PrecTable) (linelen maxlines : Nat) (lb : Bool) (e : Ex
         · simp only [Except.ok.injEq] at h
           subst h
           simp
-    · simp at h
+    · split at h
+      · simp only [Except.ok.injEq] at h
+        subst h
+        simp
+      · simp at h
 
 /-- **what is NOT claimed: a line budget.**  `_OperatorDelimiter.__exit__` restores `charpos` and
 `lineno` to their values at the opening parenthesis (then adds 2 for the parentheses), so after a
@@ -2652,12 +2657,14 @@ theorem trimResult_prefix : ∀ (fuel : Nat) (rev : List Item) (n : Nat),
 
 /-- **a cut result shows what had been written, minus at most the trimmed tail, plus the marker**:
 the displayed text is a prefix of the text accumulated when `_Maxlines`/`_Linebreak` was raised,
-followed by `...` (on its own line when line breaks are allowed) -/
+followed by `...` (on its own line when a line limit was hit and line breaks are allowed; directly
+after the text when the interpreter's recursion limit was hit, 0a8115c) -/
 theorem cut_shows_written (cfg : Cfg) (p : Prog) (r : Colorized)
     (h : colorizeProg cfg p = .ok r) (hc : r.isComplete = false) :
     ∃ e st, exec cfg 0 p ⟨[], 0, 1, cfg.linebreakok⟩ = .error (e, st) ∧
       ∃ q, q <+: itemsText st.result ∧
-        itemsText r.items = q ++ (if cfg.linebreakok then "\n...".toList else "...".toList) := by
+        itemsText r.items = q ++
+          (if cfg.linebreakok && e != .recursion then "\n...".toList else "...".toList) := by
   unfold colorizeProg at h
   simp only at h
   cases hr : exec cfg 0 p ⟨[], 0, 1, cfg.linebreakok⟩ with
@@ -2672,7 +2679,10 @@ theorem cut_shows_written (cfg : Cfg) (p : Prog) (r : Colorized)
       · next hlb =>
         simp only [Except.ok.injEq] at h; subst h
         refine ⟨itemsText st.result, List.prefix_rfl, ?_⟩
-        simp [itemsText, hlb, Item.astext, ellipsisItem, astext, dropPair]
+        rename_i hml
+        have hne : e ≠ .recursion := by
+          intro he; subst he; simp at hml
+        simp [itemsText, hlb, hne, Item.astext, ellipsisItem, astext, dropPair]
       · next hlb =>
         split at h
         · simp at h
@@ -2688,7 +2698,15 @@ theorem cut_shows_written (cfg : Cfg) (p : Prog) (r : Colorized)
             · rw [textRev_cons]; exact List.prefix_append _ _
             · exact List.prefix_rfl
           · simp [itemsText, textRev, hlb, Item.astext, ellipsisItem, astext, dropPair]
-    · simp at h
+    · next hne =>
+      split at h
+      · next hrec =>
+        simp only [Except.ok.injEq] at h; subst h
+        refine ⟨itemsText st.result, List.prefix_rfl, ?_⟩
+        have : e = .recursion := by simpa using hrec
+        subst this
+        simp [itemsText, Item.astext, ellipsisItem, astext, dropPair]
+      · simp at h
 
 
 /-! ## 7. the multi-line form of a bytes constant -/
